@@ -1559,7 +1559,7 @@ Notes:
         return cons
     import mystic.symbolic as ms #XXX: randomness due to sympy?
     cons = ms.symbolic_bounds(min, max) #XXX: how clipping with symbolic?
-    cons = ms.generate_constraint(ms.generate_solvers(ms.simplify(cons))) #join?
+    cons = ms.generate_constraint(ms.generate_solvers(cons, nvars=len(min))) #join?
     return cons
 
 
